@@ -154,8 +154,9 @@ def _file(doc, version, form, pretty):
     return refofx.render_file(doc, version, form, pretty)
 
 
-def op_pipeline(data, serialize_kw):
-    """parse -> convert -> to_etree -> tostring -> serialize, with K1 checks at every stage"""
+def op_pipeline(data, serialize_kw, repeat=False):
+    """parse -> convert -> to_etree -> tostring -> serialize, with K1 checks at every stage; with `repeat` every
+    stage is run a second time on the same object and must give an equal result"""
     def fn():
         from ofxtools.Parser import OFXTree
         from ofxtools.Client import OFXClient
@@ -189,6 +190,20 @@ def op_pipeline(data, serialize_kw):
         obefore = dump_tree(out)
         txt = ET.tostring(out).decode()
         ser = OFXClient("https://x.test/", version=serialize_kw.get("version", 203)).serialize(inst, **serialize_kw)
+        if repeat:
+            try:
+                if dump_model(t.convert()) != mbefore:
+                    raise K2("converting the same parsed tree a second time gives a different model")
+                if dump_tree(inst.to_etree()) != obefore:
+                    raise K2("writing the same model instance a second time gives a different tree")
+                if ET.tostring(out).decode() != txt:
+                    raise K2("tostring() of the same tree a second time gives different text")
+                if OFXClient("https://x.test/", version=serialize_kw.get("version", 203)).serialize(inst, **serialize_kw) != ser:
+                    raise K2("serializing the same model instance a second time gives different bytes")
+            except (K1, K2, sched.Deadlock, sched.StepCap):
+                raise
+            except Exception as e:      # noqa - the first time round it worked
+                raise K2(f"repeating a stage on the same object raises {type(e).__name__} although the first time succeeded")
         if dump_model(inst) != mbefore:
             raise K1("model instance changed by serialize()")
         if dump_tree(out) != obefore:
@@ -283,6 +298,10 @@ def build_ops():
                          ("LEDGERBAL", [("BALAMT", "9.00"), ("DTASOF", "20230301170000.000" + off)])])])])])
         ops.append((f"pipeline:tzvar:{k}", op_pipeline(_file(d, 102 if k % 2 else 203, "v1u", False),
                                                        {"version": 203})))
+    # the same stages twice on the same objects
+    ops.append(("pipeline-rep:stmt:v1u", op_pipeline(_file(docs["stmt"], 102, "v1u", False), {"version": 102, "close_elements": False}, repeat=True)))
+    ops.append(("pipeline-rep:invest:v2pretty", op_pipeline(_file(docs["invest"], 203, "v2", True), {"version": 220, "prettyprint": True}, repeat=True)))
+    ops.append(("pipeline-rep:ext:v1c", op_pipeline(_file(docs["ext"], 160, "v1c", False), {"version": 103, "prettyprint": True, "close_elements": True}, repeat=True)))
     for nm in ("bad_enum", "missing_required", "out_of_order"):
         ops.append((f"pipeline:{nm}", op_pipeline(_file(docs[nm], 102, "v1u", False), {})))
     ops.append(("header:v1", op_header(_file(docs["stmt"], 102, "v1u", False))))
